@@ -156,6 +156,7 @@ def check(ctx, run):
                              file=str(prog.modules[fi.module].path), line=fi.node.lineno))
     ww_width_rule(ctx, run)
     helper_limits_rule(ctx, run)
+    ww_forward_rule(ctx, run)
 
 
 def ww_width_rule(ctx, run):
@@ -214,3 +215,61 @@ def helper_limits_rule(ctx, run):
         if not ok:
             run.fail(Finding("C18.R1h", fi.qualname, f"{lab}: got {val}", "the exact-zero guards of the boundary cases (0/0 -> 0) rely on this limit; with a non-zero value the deltas/gammas at maturity or zero volatility are +-inf",
                              file=str(prog.modules[fi.module].path), line=fi.node.lineno))
+
+
+def ww_forward_rule(ctx, run):
+    """R3 (Whalley-Wilmott end to end): WhalleyWilmott(EuropeanOption).forward - delta, gamma, width and the clamp, through whatever helper
+    the module uses - is NaN-free at every step before maturity, INCLUDING a step where the volatility is exactly zero (stochastic-volatility
+    paths reach it), for every sign of the log-moneyness; evaluated in the extended reals on the interpreted forward."""
+    from ..interp import Obj
+    from ..term import Op, Sym, subst, walk
+    from .. import world as W
+    prog, interp = ctx.prog, ctx.interp
+    MOD = "pfhedge.nn.modules."
+    wwq, bsq = MOD + "ww.WhalleyWilmott", MOD + "bs.european.BSEuropeanOption"
+    fwd = prog.lookup_method(wwq, "forward")
+    if fwd is None or bsq not in prog.classes:
+        raise AnalysisError("anchor vanished: WhalleyWilmott.forward / BSEuropeanOption")
+    run.require("C18.R3w", 6)
+    for call in (True, False):
+        deriv = Obj("pfhedge.instruments.derivative.european.EuropeanOption", "deriv", {"strike": W.fl("K"), "call": call})
+        deriv.attrs["underlier"] = Obj(W.PRIMARY, "ul", {"cost": W.fl("cost")})
+        bs = Obj(bsq, "bs", {"call": call, "strike": W.fl("K"), "derivative": deriv})
+        ww = Obj(wwq, "ww", {"a": W.fl("a"), "bs": bs, "derivative": deriv})
+        inp = W.tensor("input")
+        interp.shapes["input"] = (W.integer("N"), 1, 4)
+        try:
+            res = [r for r in interp.explore(fwd, [inp], {}, self_obj=ww, max_paths=60) if not r["raises"]]
+        except Unsupported as ex:
+            raise AnalysisError(f"WhalleyWilmott.forward: {ex}")
+        finally:
+            interp.shapes.pop("input", None)
+        if not res:
+            raise AnalysisError("WhalleyWilmott.forward: no analysable path")
+        cols = {}
+        for k_, nm in ((0, "s"), (1, "t"), (2, "v"), (-1, "prev"), (3, "prev")):
+            for form in ([k_], k_):
+                cols[Op("index", (inp, (Ellipsis, form)))] = Sym(nm, ("tensor",))
+        sub_in = Op("index", (inp, (Ellipsis, slice(None, -1, None))))
+        for k_, nm in ((0, "s"), (1, "t"), (2, "v")):
+            for form in ([k_], k_):
+                cols[Op("index", (sub_in, (Ellipsis, form)))] = Sym(nm, ("tensor",))
+        for r in res:
+            term = subst(r["value"], cols)
+            left = [s_ for s_ in walk(term) if s_ == inp]
+            if left:
+                raise AnalysisError("WhalleyWilmott.forward: an input column is read in a form the rule does not map to (s, t, v, prev_hedge)")
+            for vlab, vv in (("v>0", fin(1, vS)), ("v=0", zero())):
+                for slab, sv in SIGNS:
+                    env = {"s": sv, "t": fin(1, tS), "v": vv, "K": fin(1, KS), "prev": fin(None, sp.Symbol("prev", real=True)),
+                           "cost": fin(1, sp.Symbol("cost", positive=True)), "a": fin(1, sp.Symbol("a", positive=True))}
+                    try:
+                        val = ExtReal(env).ev(term)
+                    except (NotImplementedError, KeyError) as ex:
+                        raise AnalysisError(f"WhalleyWilmott.forward: extended-real domain cannot model {ex}")
+                    inst = f"WhalleyWilmott(EuropeanOption[call={call}]).forward @ t>0,{vlab},{slab}"
+                    ok = val.kind != "nan"
+                    run.oblige("C18.R3w", inst, ok, str(val))
+                    if not ok:
+                        run.fail(Finding("C18.R3w", fwd.qualname, f"{inst}: NaN ({val.why})", "the Whalley-Wilmott hedge is NaN at a step before maturity (zero volatility is a state stochastic-volatility paths reach), and stays NaN in the P&L",
+                                         file=str(prog.modules[fwd.module].path), line=fwd.node.lineno, case=f"{vlab},{slab}"))
